@@ -193,7 +193,7 @@ func cmdCheck(args []string) {
 				oc.R = SolveResult{Status: "unbound", Raw: map[string]string{"vcgen": oc.FR.Unbound}}
 				return
 			}
-			q := oc.FR.Builder.script(oc.O.Pos)
+			q := oc.FR.Builder.scriptFor(oc.O.Pos, oc.O.Group)
 			if oc.O.Cover {
 				q += "(assert " + not(oc.O.Goal) + ")\n"
 				ct := timeout
@@ -207,6 +207,34 @@ func cmdCheck(args []string) {
 				oc.OK = oc.R.Status != "unsat"
 				oc.Inconclusive = oc.R.Status != "sat"
 			} else {
+				// Fold-free attempt first, for a goal that does not mention a fold in a
+				// function that has folds: the same query with every assumption that
+				// mentions one (the isum lemmas, the summand definitions, fold-valued
+				// invariants) dropped. Dropping assumptions is sound — fewer hypotheses
+				// can only prove less — and the quantified fold lemmas are what makes a
+				// solver diverge on goals that have nothing to do with them. Only
+				// `unsat` counts; any other answer is discarded and the full query runs.
+				if !strings.Contains(oc.O.Goal, "isum") && !strings.Contains(oc.O.Goal, "vmap!") && strings.Contains(q, "(isum ") {
+					var sb strings.Builder
+					for _, l := range strings.Split(q, "\n") {
+						if strings.HasPrefix(l, "(assert") && (strings.Contains(l, "isum") || strings.Contains(l, "vmap!")) {
+							continue
+						}
+						sb.WriteString(l)
+						sb.WriteString("\n")
+					}
+					ft := timeout
+					if ft > 3 {
+						ft = 3
+					}
+					r := solve(*prop+"_"+oc.O.Name+"_foldfree", sb.String()+"(assert (not "+oc.O.Goal+"))\n", nil, ft, false, false)
+					if r.Status == "unsat" {
+						r.Solver += " (fold-free)"
+						oc.R = r
+						oc.OK = true
+						return
+					}
+				}
 				q += "(assert (not " + oc.O.Goal + "))\n"
 				oc.R = solve(*prop+"_"+oc.O.Name, q, oc.O.Model, timeout, false, *tier == "thorough")
 				oc.OK = oc.R.Status == "unsat"
@@ -228,7 +256,7 @@ func cmdCheck(args []string) {
 		wg.Add(1)
 		go func(oc *oblOutcome) {
 			defer wg.Done()
-			base := oc.FR.Builder.script(oc.O.Pos)
+			base := oc.FR.Builder.scriptFor(oc.O.Pos, oc.O.Group)
 			cases := append([]Term{}, oc.O.Cases...)
 			cases = append(cases, not(or(oc.O.Cases...)))
 			res := make([]SolveResult, len(cases))
@@ -292,7 +320,7 @@ func cmdCheck(args []string) {
 				defer wg.Done()
 				sem2 <- struct{}{}
 				defer func() { <-sem2 }()
-				q := oc.FR.Builder.script(oc.O.Pos) + "(assert (not " + oc.O.Goal + "))\n"
+				q := oc.FR.Builder.scriptFor(oc.O.Pos, oc.O.Group) + "(assert (not " + oc.O.Goal + "))\n"
 				r := solve(*prop+"_"+oc.O.Name, q, oc.O.Model, 3*timeout, false, false)
 				r.Time += oc.R.Time
 				if r.Status == "unsat" || r.Status == "sat" {
@@ -343,7 +371,7 @@ func cmdCheck(args []string) {
 			bySolver[oc.R.Solver]++
 			if len(samples) < 6 && !oc.O.Cover {
 				samples = append(samples, map[string]any{"obligation": oc.O.Name, "kind": oc.O.Kind, "clause": oc.O.Src, "where": oc.O.Where,
-					"solver": oc.R.Solver, "time_s": round3(oc.R.Time), "smt_bytes": len(oc.FR.Builder.script(oc.O.Pos))})
+					"solver": oc.R.Solver, "time_s": round3(oc.R.Time), "smt_bytes": len(oc.FR.Builder.scriptFor(oc.O.Pos, oc.O.Group))})
 			}
 			if *verbose {
 				fmt.Printf("ok   %-60s %s %.2fs\n", oc.O.Name, oc.R.Solver, oc.R.Time)
